@@ -108,11 +108,12 @@ func C18(c *core.Ctx) {
 					return
 				}
 				edges = append(edges, "entry."+fld+"+1")
-				if fld == "Cost" && pred != nil && join != nil {
+				if fld == "Cost" && pred != nil {
 					// poison reverse: the advertised cost is never used on a path asserting
-					// that the advertised next hop is this router
+					// that the advertised next hop is this router (join == nil: the value is
+					// returned from block pred)
 					cut, per := core.CutEdges(cf, neg(isSelf))
-					if per[0] > 0 && !cut[core.Edge{From: pred, To: join}] && core.ReachAvoiding(cf, cf.Blocks[0], map[*ssa.BasicBlock]bool{pred: true}, cut) != nil {
+					if per[0] > 0 && (join == nil || !cut[core.Edge{From: pred, To: join}]) && core.ReachAvoiding(cf, cf.Blocks[0], map[*ssa.BasicBlock]bool{pred: true}, cut) != nil {
 						okCost = false
 						edges = append(edges, "(entry.Cost used although the advertised next hop is this router: no poison reverse)")
 					}
@@ -144,6 +145,27 @@ func C18(c *core.Ctx) {
 					}
 				}
 				walk(phi, map[*ssa.Phi]bool{})
+			} else if rvs := core.ReturnedValues(costV); len(rvs) > 1 || (len(rvs) == 1 && rvs[0] != costV) {
+				// the cost comes out of a helper with several returns: each return is an
+				// alternative, decided in the helper's own control flow
+				if cl, ok := costV.(*ssa.Call); ok && cl.Call.StaticCallee() != nil {
+					cf = cl.Call.StaticCallee()
+					restore := core.WithRoot(ru)
+					core.Instrs(cf, func(in ssa.Instruction) {
+						if r, ok := in.(*ssa.Return); ok && len(r.Results) == 1 && in.Block() != cf.Recover {
+							if ph, isPh := core.Strip(r.Results[0]).(*ssa.Phi); isPh {
+								for i, e := range ph.Edges {
+									check(e, ph.Block().Preds[i], ph.Block())
+								}
+							} else {
+								check(r.Results[0], r.Block(), nil)
+							}
+						}
+					})
+					restore()
+				} else {
+					check(costV, nil, nil)
+				}
 			} else {
 				check(costV, nil, nil)
 			}
